@@ -32,12 +32,12 @@ def run_shard(ctx, spec):
     elif spec['w'] == 'jumpoff':
         for k in range(spec['n']):
             if spec.get('deep'):
-                ex.jumpoff_scenario(rnd.choice([3, 3, 4, 4]), max_jo=rnd.choice([3, 4, 5]), scripted=True)
+                ex.jumpoff_scenario(rnd.choice([3, 3, 4, 4, 5, 6]), max_jo=rnd.choice([3, 4, 5, 6]), scripted=True)
             else:
                 ex.jumpoff_scenario(rnd.choice([3, 3, 4, 2]), max_jo=3)
     else:
         for k in range(spec['n']):
-            ex.complete(rnd.choice(spec.get('nj', [2, 3, 3, 4, 4])), max_reg=rnd.choice([2, 3, 4]), max_jo=3)
+            ex.complete(rnd.choice(spec.get('nj', [2, 3, 3, 4, 4, 5, 6])), max_reg=rnd.choice([2, 3, 4, 4, 7, 9]), max_jo=rnd.choice([3, 3, 4]))
     ctx.info['states'] = ex.states
     ctx.info['transitions'] = ex.transitions
     ctx.count('eval.states-expanded', ex.states)
